@@ -23,7 +23,9 @@
 (*   X04.Effect     after a valid request the application graph is         *)
 (*                  Effect(g, r) - exactly the GraphEdit step              *)
 (*   X04.Frame      an invalid / neutral request leaves the graph as it was*)
-(*   X04.Response   the answer names the result: new node id and type,     *)
+(*   X04.Response   the answer names the result: the (fresh) id and the type *)
+(*                  of the new node - Effect then demands that node under  *)
+(*                  exactly that id -,                                     *)
 (*                  parameter value / name, the graph (GET /graph,         *)
 (*                  /schema), the artifact BY VALUE (Art), the zip entries *)
 (*   X04.Saved      after a valid edit the autosaved file loads into a     *)
@@ -99,7 +101,7 @@ Err(st) == st >= 400 /\ st < 600
 
 \* does the answer of a valid request name the result?
 ResponseOK(gr, r, ln) ==
-    CASE r.kind = "create" -> ln.rk = "json-object" /\ ln.rid = NewId(gr.ids) /\ ln.rtype = r.a
+    CASE r.kind = "create" -> ln.rk = "json-object" /\ FreshId(gr, ln.rid) /\ ln.rtype = r.a
       [] r.kind = "getval" -> ln.rval = gr.val[r.a]
       [] r.kind = "getname" -> ln.rval = gr.name[r.a]
       [] r.kind = "getgraph" -> Clean(ln.rg) /\ Core(ln.rg) = ModelCore(gr)
@@ -117,7 +119,7 @@ TReq ==
            sent == ln.st # 0 - 2
            cls == Class(g, r)
            why == Reason(g, r)
-           g2 == Effect(g, snap, r)
+           g2 == EffectK(g, snap, r, IF FreshId(g, ln.rid) THEN ln.rid ELSE NewId(g.ids))
            appOK == Clean(ln.app) /\ Core(ln.app) = ModelCore(g2)
            fileIsG2 == ln.fok /\ Clean(ln.file) /\ Core(ln.file) = ModelCore(g2)
                        /\ (AcyclicG(g2) => ArtsOf(ln.file) = ArtSet(g2))
